@@ -95,7 +95,7 @@ def shaped(g, rng):
 
 def gen_cases(ctx):
     g = mapgen.MapGen(ctx.rng)
-    specs = shaped(g, ctx.rng)
+    specs = [("witness-" + f, w) for f, w in mapgen.WITNESSES[PROP]()] + shaped(g, ctx.rng)
     for i in range(ctx.n(65, 1200)):
         sp = g.pair(**BASE)
         r = ctx.rng.random()
